@@ -35,6 +35,11 @@ TOL_WIDTH = 5e-2     # widths lag the pressure iteration (stops at pressRelErrTo
                      # observed <= 2.3e-2 relative over 8 seeds
 TOL_OFFSET = 2e-2
 CFG = {"M": 25, "N": 5, "errTol": 1e-3, "phaseTracerTol": 1e-6, "hydro_rtol": 1e-6}
+_CFG_ACTIVE = None
+# fixed-velocity probe, same pinned field, converged iteration (pressRelErrTol 1e-3).
+# Unchanged tree, quick seeds 0-3: P <= 2.8e-2, widths <= 3.2e-3, offsets <= 2.3e-5;
+# the seeded kinetic-term change gives P 5e-2, widths 2.3e-3, offsets 4.6e-3
+TOLP_PROBE, TOLW_PROBE, TOLO_PROBE = 0.1, 2e-2, 1e-3
 FLOORS = {
     "quick": {"distinct_nontrivial": 4, "mon": {"pairs_compared": 12, "solve_pairs": 4}},
     "thorough": {"distinct_nontrivial": 150, "mon": {"pairs_compared": 200, "solve_pairs": 150}},
@@ -140,6 +145,42 @@ def compare(ref, oth, tr, A, b, viol, tag):
         obs["vLTE"] = d
         if d > 10 * hyd_tol:
             fail("lte", "vLTE", d, 10 * hyd_tol)
+    # fixed-velocity pressure probe (both runs start the iteration from the same physical
+    # wall parameters): pressure, widths (permuted) and offsets (re-origined)
+    pr, po = ref.get("probe"), oth.get("probe")
+    # Judged only when the same physical field stays pinned at offset 0 (perm[0] == 0): the
+    # tanh ansatz's action contains int (V - V_ref) dz, which changes by (shift x Delta V)
+    # when the z origin moves to another field's wall centre, so away from the pressure's
+    # zero the minimising widths/offsets legitimately depend on which field is pinned
+    # (measured on the unchanged tree: offsets 0.30 vs 0.42 under a field exchange).
+    if pr and po and "error" not in pr and "error" not in po and pr["ok"] and po["ok"] \
+            and tr["perm"][0] == 0:
+        perm = tr["perm"]
+        prel = 1e-3      # the probe runs with pressRelErrTol = 1e-3 (see _meta._pipeline)
+        scaleP = max(abs(pr["P_over_Tn4"]), abs(po["P_over_Tn4"]), 1e-300)
+        dP = abs(pr["P_over_Tn4"] - po["P_over_Tn4"]) / scaleP
+        obs["probe_P"] = dP
+        Lr, dr = pr["widths"], pr["offsets"]
+        Lo, do = po["widths"], po["offsets"]
+        Lw = np.array([Lr[perm[j]] for j in range(len(perm))])
+        dw = float(np.max(np.abs(Lo - Lw) / Lw))
+        obs["probe_widths"] = dw
+        p0 = perm[0]
+        want = np.array([dr[perm[j]] - dr[p0] * Lr[p0] / Lr[perm[j]] for j in range(len(perm))])
+        dd = float(np.max(np.abs(do - want)))
+        obs["probe_offsets"] = dd
+        hit = False
+        if dP > TOLP_PROBE:
+            fail("solve", "probe pressure", dP, TOLP_PROBE, f"at v_w={pr['vw']:.4f}")
+            hit = True
+        if dw > TOLW_PROBE:
+            fail("solve", "probe widths (permuted)", dw, TOLW_PROBE, f"({Lo} vs {Lw})")
+            hit = True
+        if dd > TOLO_PROBE:
+            fail("solve", "probe offsets (re-origined)", dd, TOLO_PROBE, f"({do} vs {want})")
+            hit = True
+        if hit:
+            obs["_solve_diverged_at"] = [pr["vw"]]
     if "vw" in ref and "vw" in oth:
         if (ref["vw"] is None) != (oth["vw"] is None) or ref["solutionType"] != oth["solutionType"]:
             fail("solve", "outcome", 1.0, 0.0,
@@ -295,6 +336,8 @@ def run_case(case):
             classes.append("partner-off-branch")
             continue
         nv = len(viol)
+        global _CFG_ACTIVE
+        _CFG_ACTIVE = cfg
         o = compare(ref, oth, tr, pot2.A, pot2.b, viol, tag)
         reclassify_solve(viol, nv, o, spec, cfg, mon)
         mon["pairs_compared"] += 1
